@@ -117,6 +117,9 @@ ATOMS = [
     A("re", "[0-9]+", key="n"), A("re", "(x", key="role"), A("re", ".*'.*", key="k'q", cs=False),
     A("re", "", key="none"), A("re", "é+", key="uni", cs=False), A("glob", "É*", key="uni", cs=False),
     A("glob", "x", key="'"), A("literal", "y", key="\\"), A("glob", "and", key="and"),
+    # whitespace that must be preserved inside quoted keys and patterns (runs of blanks, tab, newline, leading blank)
+    A("literal", "a  b"), A("glob", "rack  7*", cs=False), A("literal", " lead"), A("glob", "line\nbreak*"),
+    A("literal", "v\tw", key="my key"), A("glob", "x*", key="my  key"), A("re", "a  b"), A("literal", "tab\there", cs=False),
 ]
 
 SYSTEMS = [
@@ -130,6 +133,15 @@ SYSTEMS = [
     ["it's", {"role": "Web-1", "n": "12", "uni": "ÉCOLE"}],
     ["a\\b", {"role": "", "my key": "v\tw"}],
     ["École (x)", {"role": "not"}],
+    ["a  b", {"my  key": "xy", "my key": "zz"}],
+    ["rack  7", {"role": "web"}],
+    ["rack 7", {"my key": "v w"}],
+    [" lead", {}],
+    ["lead", {}],
+    ["line\nbreak-1", {}],
+    ["line break-1", {}],
+    ["tab\there", {}],
+    ["tab here", {}],
 ]
 
 
@@ -526,18 +538,26 @@ def run_impl(case, env):
             return [n for _ in systems]
         return [_call(lambda: m.matches(system_id=i, system_data=d)) for i, d in systems]
 
-    sm._expression_from_string_cached.cache_clear()
+    def _caches():
+        # every functools cache of the matcher module (robust against renaming / re-layering)
+        return [f for f in vars(sm).values() if callable(f) and hasattr(f, "cache_clear") and hasattr(f, "cache_info")]
+
+    def clear_caches():
+        for f in _caches():
+            f.cache_clear()
+
+    clear_caches()
     first = match_all()
     if case.get("evict"):
         for k in range(300):
             _call(lambda: sm.match(f"filler-{k}-*", system_id="x"))
     cached = match_all()
-    sm._expression_from_string_cached.cache_clear()
+    clear_caches()
     mfirst = matcher_all()
     mcached = matcher_all()
-    info = sm._expression_from_string_cached.cache_info()
+    hits = sum(f.cache_info().hits for f in _caches())
     return {"first": first, "cached": cached, "mfirst": mfirst, "mcached": mcached,
-            "cache_hits_second_matcher": info.hits}
+            "cache_hits_second_matcher": hits}
 
 
 # ------------------------------------------------------------------------------- model side
